@@ -309,12 +309,16 @@ func isInitFunc(f *ssa.Function) bool {
 	return f.Name() == "init" || strings.HasPrefix(f.Name(), "init#")
 }
 
-var initOnlyCache map[*ssa.Function]bool
+var (
+	initOnlyCache map[*ssa.Function]bool
+	initOnlyProg  *core.Program
+)
 
 // initOnly: f runs only during package initialisation — it is an init
 // function, or every call-graph edge into it comes from such a function.
 func initOnly(p *core.Program, f *ssa.Function) bool {
-	if initOnlyCache == nil {
+	if initOnlyCache == nil || initOnlyProg != p {
+		initOnlyProg = p
 		initOnlyCache = map[*ssa.Function]bool{}
 		cg := p.CallGraph()
 		for fn := range cg.Nodes {
